@@ -1,0 +1,31 @@
+//go:build verif
+
+package fee
+
+// Contracts for the verif build tag (comment-only; see /verif/DESIGN.md).
+
+// C07, the size side of the fee calculator: for a standard account the size it reports is exactly what
+// the witness will take in the serialized transaction - the invocation script (one 64-byte
+// signature push per required signature, 66 bytes each, behind its length prefix) plus the
+// verification script behind ITS length prefix, which is 1, 3 or 5 bytes depending on the
+// script length. What GetVarSize returns for a byte slice and for a count is stated here (it
+// works by reflection and is not under contract).
+//@ prop C07
+//@ import io github.com/nspcc-dev/neo-go/pkg/io
+//@ import scparser github.com/nspcc-dev/neo-go/pkg/smartcontract/scparser
+//@ func Calculate
+//@ may-panic
+//@ opt frame off
+//@ call GetVarSize ensures[bytes] is(arg0, []byte) ==> result == io.varsize(len(arg0.([]byte))) + len(arg0.([]byte))
+//@ call GetVarSize ensures[count] is(arg0, int) ==> result == io.varsize(arg0.(int))
+//@ ensures[sig] scparser.sigScript(script) ==> result1 == 1 + 66 + io.varsize(len(script)) + len(script)
+//@ ensures[multi] !scparser.sigScript(script) && scparser.multiScript(script) ==> result1 == io.varsize(66*scparser.multiM(script)) + 66*scparser.multiM(script) + io.varsize(len(script)) + len(script)
+//@ ensures[other] !scparser.sigScript(script) && !scparser.multiScript(script) ==> result1 == 0 && result0 == 0
+
+// the price side is not under contract here: the helpers read their arguments and the coefficient table only
+//@ func Opcode
+//@ assumed
+//@ pure
+//@ func calculateMultisig
+//@ assumed
+//@ pure
